@@ -108,6 +108,107 @@ def OnCycle {α : Type} (r : α → α → Prop) (v : α) : Prop := TC r v v
 
 def Edge (deps : List (Name × List Name)) (a b : Name) : Prop := b ∈ succ deps a
 
+/-! ### the EMITTED type graph (C10): who holds whom, through which wrappers
+
+`graph.emit` reads every field / variant payload type of the emitted items as a target name plus the chain of
+wrappers on the way (`Option<Vec<Box<T>>>` = `[option, vec, box]`).  An edge is BY VALUE when the chain has
+nothing but `Option`s: the holder's size then includes the target's size.  `Box`, `Vec`, maps put the target on
+the heap (an indirection); every other generic is counted as an indirection only because nothing of that sort is
+emitted around a schema type (the harness reports them as `generic`). -/
+
+inductive Via | value | option | box | vec | map | other
+  deriving DecidableEq, Repr
+
+structure EEdge where
+  target : Name
+  via : List Via
+  deriving DecidableEq, Repr
+
+def Via.byValue : Via → Bool
+  | .value => true
+  | .option => true
+  | _ => false
+
+def EEdge.byValue (e : EEdge) : Bool := e.via.all Via.byValue
+
+abbrev EGraph := List (Name × List EEdge)
+
+/-- by-value containment: holder ↦ the types whose size is part of its own -/
+def valueDeps (g : EGraph) : List (Name × List Name) :=
+  g.map fun p => (p.1, dedup ((p.2.filter EEdge.byValue).map (·.target)))
+
+/-- the emitted types that lie on a cycle of by-value edges (infinite size, rustc E0072); an exhausted
+closure counts as a failure, never as a pass -/
+def sizeCycles (g : EGraph) : List Name :=
+  (g.map (·.1)).filter fun n => cyclic (valueDeps g) n != some false
+
+def lookupRank (t : List (Name × Nat)) (w : Name) : Nat :=
+  match t.find? (fun p => p.1 == w) with
+  | some p => p.2
+  | none => 0
+
+/-- `k` rounds of "my rank = 1 + the largest rank among what I hold by value" -/
+def rankTable (d : List (Name × List Name)) : Nat → List (Name × Nat)
+  | 0 => d.map fun p => (p.1, 0)
+  | k + 1 => let t := rankTable d k
+             d.map fun p => (p.1, p.2.foldl (fun m w => max m (lookupRank t w + 1)) 0)
+
+/-- a layout order for the emitted types: after as many rounds as there are types the ranks of an acyclic graph
+are stable (longest by-value chain below a type) -/
+def layoutRank (g : EGraph) : Name → Nat := lookupRank (rankTable (valueDeps g) g.length)
+
+/-- certificate check: along every by-value edge the rank goes strictly down -/
+def rankOk (d : List (Name × List Name)) (r : Name → Nat) : Bool :=
+  d.all fun p => p.2.all fun b => r b < r p.1
+
+/-- C10 on the emitted items: every cycle of the emitted type graph passes through an indirection, i.e. the
+by-value edges alone admit a strictly decreasing rank (decidable; sound for finite size, see
+`Props/C10.emitted_cycle_has_indirection_sound`) -/
+def emittedCycleHasIndirection (g : EGraph) : Bool := rankOk (valueDeps g) (layoutRank g)
+
+/-- the generator's boxing rule (`TypeResolver::type_ref`, `InlineTypeResolver::type_ref`,
+`VariantBuilder::build_ref_variant`): a reference BY NAME to component schema `t` is boxed iff `t` is flagged
+cyclic by `detect_cycles`; the payloads of a discriminated base's variants are boxed always
+(`DiscriminatorConverter`) -/
+def expectBoxed (deps : List (Name × List Name)) (discVariant : Bool) (t : Name) : Option Bool :=
+  if discVariant then some true else cyclic deps t
+
+/-- … except for the element type of an array (`Vec<T>`: the container is the indirection, `type_ref` is not
+consulted); the value type of a map goes through `type_ref` like a member (`HashMap<String, Box<T>>`) -/
+def expectBoxedAt (deps : List (Name × List Name)) (discVariant : Bool) (via : List Via) (t : Name) : Option Bool :=
+  if via.contains .vec then some false else expectBoxed deps discVariant t
+
+/-! ### `#[serde(untagged)]` unions of object members (C10, round trip of recursive documents)
+
+Trusted semantics (serde_derive): an untagged enum is read by trying the variants IN DECLARATION ORDER; a struct
+variant accepts an object iff every member that serde may not omit is present (unknown keys are ignored unless
+`deny_unknown_fields`); what is written back are the members of the variant that was chosen.  Documents are
+abstracted to their key sets: the members of one union use different member names, nested union values are
+documents of the same union and are judged on their own. -/
+
+structure UVariant where
+  payload : Name                 -- the struct the variant wraps
+  required : List Name           -- wire names serde insists on
+  wires : List Name              -- every wire name of the struct
+  closed : Bool := false         -- `deny_unknown_fields`
+  deriving DecidableEq, Repr
+
+def UVariant.accepts (v : UVariant) (keys : List Name) : Bool :=
+  v.required.all keys.contains && (!v.closed || keys.all v.wires.contains)
+
+/-- the variant an object with these keys is decoded as -/
+def chooseVariant (vs : List UVariant) (keys : List Name) : Option UVariant := vs.find? (·.accepts keys)
+
+/-- does the object come back with all its keys? -/
+def keysPreserved (vs : List UVariant) (keys : List Name) : Bool :=
+  match chooseVariant vs keys with
+  | some v => keys.all v.wires.contains
+  | none => false
+
+/-- the order of the payload types as they should be declared: the order of the `$ref` members in the spec -/
+def expectedVariantOrder (specMembers : List Name) (emitted : List Name) : List Name :=
+  specMembers.filter emitted.contains
+
 /-! ### duplicate response enums (postprocess/response_enum.rs): operations with the same response signature
 share ONE response enum — the canonical one (shortest name, then alphabetical); the others are removed from the
 type list by index -/
